@@ -303,9 +303,8 @@ def stripCtcpStr (s : Str) : Str := rstripP isCtcp (lstripP isCtcp s)
 /-- `ircutils.isValidArgument` -/
 def validArg (s : Str) : Bool := !(s.contains '\r' || s.contains '\n' || s.contains '\x00')
 
-/-- `_makeReply(irc, msg, s, to=, notice=, private=, prefixNick=, stripCtcp=)` for a payload on which
-`safeArgument` is the identity (`validArg s`); `action`/`error` are not on the chunking path. -/
-def makeReply (e : Env) (s : Str) : Out :=
+/-- command, target and nick prefix chosen by `_makeReply` (they do not depend on the text) -/
+def replyFrame (e : Env) : Str × Str × Str :=
   -- target = ircutils.replyTo(msg)
   let target0 := if e.msgIsChannel then e.msgTarget else e.nick
   let pub0 := if e.msgIsChannel then e.pubMsgTarget else e.pubNick
@@ -328,11 +327,21 @@ def makeReply (e : Env) (s : Str) : Out :=
   let pubTo' := match e.to with
     | none => e.pubNick
     | some _ => e.pubTo
-  let s1 := if e.stripCtcp then stripCtcpStr s else s
-  let s2 := if s1.isEmpty then Gen.emptyReply else s1
-  let s3 := if prefixNick && tp2.2 && !pubTo' then to' ++ (':' :: ' ' :: s2) else s2
+  -- if prefixNick and isPublic(target): if not isPublic(to): s = '%s: %s' % (to, s)
+  let pre := if prefixNick && tp2.2 && !pubTo' then to' ++ [':', ' '] else []
+  -- if not isPublic(target): if conf.supybot.reply.withNoticeWhenPrivate(): notice = True
   let notice' := if !tp2.2 && e.confNoticeWhenPrivate then true else notice
-  { command := if notice' then Gen.noticeCmd else Gen.privmsgCmd, target := tp2.1, payload := s3 }
+  (if notice' then Gen.noticeCmd else Gen.privmsgCmd, tp2.1, pre)
+
+/-- the text after the nick prefix: `s.strip('\x01')`, and the error text when nothing is left -/
+def replyBody (e : Env) (s : Str) : Str :=
+  let s1 := if e.stripCtcp then stripCtcpStr s else s
+  if s1.isEmpty then Gen.emptyReply else s1
+
+/-- `_makeReply(irc, msg, s, to=, notice=, private=, prefixNick=, stripCtcp=)` for a payload on which
+`safeArgument` is the identity (`validArg s`); `action`/`error` are not on the chunking path. -/
+def makeReply (e : Env) (s : Str) : Out :=
+  { command := (replyFrame e).1, target := (replyFrame e).2.1, payload := (replyFrame e).2.2 ++ replyBody e s }
 
 /-- the line as the server relays it: `':%s %s %s :%s\r\n' % (irc.prefix, command, target, payload)` -/
 def wire (e : Env) (o : Out) : Str :=
